@@ -470,6 +470,15 @@ class Ctx:
             cube = _cube_of_linear(args[0], self)
             if cube is not None and cube[1] == 0:
                 return cube[0]
+        if name == "sqrt" and len(args) == 1 and isinstance(args[0], RatFunc) and self.positive and not args[0].is_const() \
+                and len(args[0].num) == 1 and len(args[0].den) == 1:
+            # sqrt(c * x^2a * y^2b / ...) with every atom declared positive
+            (mn, cn), = args[0].num.items()
+            (md, cd), = args[0].den.items()
+            if all(e % 2 == 0 and poly.atom_by_id(k).name in self.positive for k, e in tuple(mn) + tuple(md)):
+                r = _exact_root(Fraction(cn) / Fraction(cd), 2)
+                if r is not None:
+                    return RatFunc({tuple((k, e // 2) for k, e in mn): Fraction(r)}, {tuple((k, e // 2) for k, e in md): Fraction(1)}, self.tab)._norm()
         if name in ("sqrt", "cbrt") and len(args) == 1 and isinstance(args[0], RatFunc) and args[0].is_const():
             c = args[0].const_value()
             r = _exact_root(c, 2 if name == "sqrt" else 3)
@@ -577,6 +586,23 @@ class Ctx:
             # every monomial of the denominator is a positive coefficient times atoms declared positive => denominator > 0
             if all(cden > 0 and all(poly.atom_by_id(k).name in self.positive for k, _ in m) for m, cden in d.den.items()):
                 d = RatFunc(dict(d.num), poly.p_const(1), self.tab)._norm()
+        if self.positive and poly.p_is_const(d.den) and len(d.num) >= 2:
+            # a monomial of positive atoms common to every term does not affect the sign: p*(a - b) op 0 <=> a - b op 0
+            common = None
+            for m in d.num:
+                pm = {k: e for k, e in m if poly.atom_by_id(k).name in self.positive}
+                common = pm if common is None else {k: min(e, pm[k]) for k, e in common.items() if k in pm}
+                if not common:
+                    break
+            if common:
+                num2 = {}
+                for m, cn in d.num.items():
+                    m2 = tuple((k, e - common.get(k, 0)) for k, e in m if e - common.get(k, 0) > 0)
+                    num2[m2] = num2.get(m2, Fraction(0)) + cn
+                d = RatFunc(num2, d.den, self.tab)._norm()
+                if d.is_const():
+                    c = d.const_value()
+                    return {"<": c < 0, "<=": c <= 0, "==": c == 0, "!=": c != 0}[op]
         if self.positive and op in ("==", "!=") and poly.p_is_const(d.den) and len(d.num) == 1:
             # c * p1^a * x^b == 0  <=>  x == 0   (c != 0, p1 > 0)
             (m, cn), = d.num.items()
@@ -597,6 +623,15 @@ class Ctx:
                 return {"<": not pos, "<=": not pos, "==": False, "!=": True}[op]
         # (linear form)^3 + r op 0  <=>  linear form op cbrt(-r)   (x -> x^3 strictly monotone)
         cube = _cube_of_linear(d, self)
+        if cube is None and poly.p_is_const(d.den):
+            # alpha * L^3 + r op 0: divide by the (non-cube) leading coefficient first
+            c3 = [cn for m, cn in d.num.items() if len(m) == 1 and m[0][1] == 3]
+            if len(c3) == 1 and c3[0] != 0:
+                alpha = c3[0] / poly.p_const_value(d.den)
+                d2 = d * self.num(1 / alpha)
+                cube = _cube_of_linear(d2, self)
+                if cube is not None and alpha < 0:
+                    op = {"<": ">", "<=": ">=", "==": "==", "!=": "!=", ">": "<", ">=": "<="}[op]
         if cube is not None:
             lin, r = cube
             root = _exact_root(-r, 3)
@@ -1694,6 +1729,12 @@ class Evaluator:
                 r = self.operator(p, name, args, fr, c, e)
                 if r is not NotImplemented:
                     return r
+        # 2a. hook: rule-supplied semantics for an external function (spath/rpath, args) -> value | NotImplemented
+        ch = getattr(self.ctx, "call_hook", None)
+        if ch is not None:
+            r = ch(spath, rpath, args, c, self, fr)
+            if r is not NotImplemented:
+                return r
         # 2. hook: force uninterpreted
         fu = self.ctx.force_uninterp
         if fu is not None:
